@@ -100,6 +100,14 @@ theorem c16_ast_immutable :
        "XPathExpression._is_unambiguously_locatable"] := by
   decide
 
+/-- translator obligation: no function of the tokenizer and the parser stores into anything it did
+    not create itself (outside constructors) - the token lists and expressions that the caches hand
+    out are not altered by a later parse that receives them -/
+theorem c16_pipeline_pure :
+    Gen.pipelineFunctions ≠ [] ∧
+    ∀ m ∈ Gen.pipelineFunctions, m.foreignMutations = 0 ∧ (m.isConstructor = false → m.selfMutations = 0) := by
+  decide
+
 open Delb.Cache in
 /-- an lru cache in front of a function is unobservable: whatever was called or cleared before,
     with any `maxsize`, every call answers what the function itself answers (results *and*
